@@ -404,6 +404,10 @@ func (g *G) mapObjectPayload(meth *m.Method, hasBodyVerb bool) {
 					break
 				}
 				h.Body = &m.Body{Mode: "attr", Attr: bodyFields[0]}
+				if BodyAttrRecursiveValidatedUT(g.d, meth) && g.avoid("C01-body-attr-recursive-validated-user-type") {
+					h.Body = nil
+					break
+				}
 				g.feat("body-attr")
 			}
 		case 1:
